@@ -160,6 +160,28 @@ def check(prop, tier, seed):
                 continue
             if project(spec, c.kind, iv) != project(spec, c.kind, mv):
                 mismatches.append(c)
+        # Scheduled cases detect "this thread is blocked on a lock" by a settle time-out (60 ms): on a
+        # starved machine a slow thread can be taken for a blocked one.  A scheduled execution is
+        # deterministic, so a real failure repeats: a failing or diverging `sched` case is re-run alone
+        # (twice) and kept unless BOTH re-runs pass and agree with the model.  Unscheduled (`fhist`)
+        # cases are never filtered - there a failure that does not repeat is still a failure.
+        suspects = [c for c in cases if c.kind == 'sched' and (c in fails or c in mismatches)]
+        for c in suspects[:20]:
+            ok_runs = 0
+            for _ in range(2):
+                try:
+                    _, i2, m2, v2 = eval_one(spec, bindir, c.kind, c.obj, tag='confirm')
+                except Exception:
+                    break
+                if is_fail(v2) or project(spec, c.kind, i2) != project(spec, c.kind, m2):
+                    break
+                ok_runs += 1
+            if ok_runs == 2:
+                if c in fails:
+                    fails.remove(c)
+                if c in mismatches:
+                    mismatches.remove(c)
+                stats['timing_artefacts_not_repeated'] = stats.get('timing_artefacts_not_repeated', 0) + 1
         if getattr(spec, 'xcheck', None):
             # extraction cross-check: the kernel's vm_compute must agree with the extracted OCaml
             try:
